@@ -14,10 +14,10 @@ import (
 
 type intrinsic func(x *Exec, fn *ssa.Function, args []Value) Value
 
-var intrinsics map[string]intrinsic
+var intrinsics = map[string]intrinsic{}
 
 func init() {
-	intrinsics = map[string]intrinsic{
+	base := map[string]intrinsic{
 		"math.Min":             inMathMin,
 		"math.Max":             inMathMax,
 		"math.Abs":             func(x *Exec, _ *ssa.Function, a []Value) Value { return x.C.FAbs(a[0].(*smt.Term)) },
@@ -120,6 +120,9 @@ func init() {
 			return Tuple{x.C.IntC(64, int64(v)), IfaceV{}}
 		},
 		"runtime.GOMAXPROCS": func(x *Exec, _ *ssa.Function, a []Value) Value { return x.C.IntC(64, int64(x.Opt.Workers)) },
+	}
+	for k, v := range base {
+		intrinsics[k] = v
 	}
 }
 
